@@ -239,12 +239,42 @@ def main():
     canary_total = canary_failed = 0
     assumed_here = []
 
-    for un in units:
+    # verify all units (and their vacuity canaries) concurrently: Verus itself is multi-threaded, 16 cores
+    from concurrent.futures import ThreadPoolExecutor
+    seeds = [None]
+    if a.tier == 'thorough':
+        # proof-stability: every unit is additionally verified under two other solver seeds
+        seeds = [None, 1 + seed % 1000, 1001 + seed % 1000]
+
+    def job(un):
         try:
-            u, rc, diags, summary, wall, raw, path = run_unit(un, a.repo, outdir)
+            main_res = run_unit(un, a.repo, outdir)
         except (AnchorLost, Unsupported, LookupError, ValueError) as e:
-            undecided.append('%s: %s: %s' % (un, type(e).__name__, e))
+            return un, e, None, []
+        try:
+            can = run_unit(un, a.repo, outdir, canary=True)
+        except (AnchorLost, Unsupported) as e:
+            can = e
+        extra = []
+        for sd in seeds[1:]:
+            rc2, diags2, summary2, wall2, raw2 = vx.run_verus(main_res[6], extra=('--smt-option', 'smt.random_seed=%d' % sd))
+            vr2 = (summary2 or {}).get('verification-results', {})
+            extra.append((sd, vr2.get('verified'), vr2.get('errors'), round(wall2, 1)))
+        return un, main_res, can, extra
+
+    with ThreadPoolExecutor(max_workers=4) as ex:
+        results = list(ex.map(job, units))
+    stability = []
+    for un, main_res, can_res, extra in results:
+        if isinstance(main_res, Exception):
+            undecided.append('%s: %s: %s' % (un, type(main_res).__name__, main_res))
             continue
+        u, rc, diags, summary, wall, raw, path = main_res
+        for (sd, v2, e2, w2) in extra:
+            stability.append({'unit': un, 'smt.random_seed': sd, 'verified': v2, 'errors': e2, 'wall_s': w2})
+            vr0 = (summary or {}).get('verification-results', {})
+            if vr0.get('errors', 0) == 0 and (e2 or 0) > 0:
+                undecided.append('%s: proof is unstable: verifies with the default solver seed, %s error(s) with smt.random_seed=%d' % (un, e2, sd))
         errs = [d for d in diags if d['level'] == 'error' and not d['message'].startswith('aborting due to')]
         vr = (summary or {}).get('verification-results', {})
         if summary is None or vr.get('encountered-vir-error') or (errs and vr.get('verified', 0) == 0 and vr.get('errors', 0) == 0):
@@ -273,15 +303,15 @@ def main():
         unit_reports.append({'unit': un, 'verus_wall_s': round(wall, 2), 'verified_fns': vr.get('verified'), 'errors': vr.get('errors'),
                              'smt_ms': (times.get('smt') or {}).get('total'), 'file': path})
         # vacuity guard
-        try:
-            names, failed, cw = run_unit(un, a.repo, outdir, canary=True)
+        if isinstance(can_res, Exception):
+            undecided.append('%s canary: %s' % (un, can_res))
+        else:
+            names, failed, cw = can_res
             canary_total += len(names)
             canary_failed += len([n for n in names if n in failed])
             for n in names:
                 if n not in failed:
                     undecided.append('%s: vacuity canary for %s did not fail (contradictory precondition?)' % (un, n))
-        except (AnchorLost, Unsupported) as e:
-            undecided.append('%s canary: %s' % (un, e))
 
     mine = [f for f in failures if pid in f[2]]
     violations, knowns = [], []
@@ -359,6 +389,7 @@ def main():
             'implicit_failures': [f[1] for f in implicit_failed],
             'vacuity_canaries': {'planted': canary_total, 'failed_as_required': canary_failed},
             'units': unit_reports,
+            'proof_stability_reruns': stability,
             'contracts_assumed_in_a_unit_and_proved_in_another': sorted(set(assumed_here)),
             'bounded_native_replays': [{'test': r['test'], 'cases_passed': r['passed'], 'cases_failed': r['failed']} for r in replays],
             'known_findings': [f[1] for f in knowns],
